@@ -54,6 +54,7 @@ func unitCmd(args []string) {
 	post := fs.Bool("post", true, "")
 	frame := fs.Bool("frame", true, "")
 	cover := fs.Bool("cover", false, "")
+	assertsOnly := fs.Bool("assertsonly", false, "")
 	timeout := fs.Int("timeout", 10000, "ms per query")
 	dump := fs.Bool("dump", false, "print the script")
 	irc := fs.Bool("irc", false, "wire the ircserver command table (handler template contracts)")
@@ -74,7 +75,7 @@ func unitCmd(args []string) {
 	}
 	bad := 0
 	for _, name := range fs.Args() {
-		u, err := e.VerifyFunc(name, vc.UnitOpts{NoPanic: *nopanic, Post: *post, Frame: *frame, Cover: *cover})
+		u, err := e.VerifyFunc(name, vc.UnitOpts{NoPanic: *nopanic, Post: *post, Frame: *frame, Cover: *cover, AssertsOnly: *assertsOnly})
 		if err != nil {
 			fmt.Println("ENGINE-ERROR", err)
 			bad++
